@@ -383,6 +383,18 @@ func OracleNL(op M, res any, exec func(M) any) []Finding {
 				}
 			}
 		}
+		// "the same attribute rule as union", the node kind included: a surviving node is the node the
+		// union of the same operands holds under that identifier
+		if a.Nodup() && b.Nodup() && r.Nodup() {
+			if un, ok := exec(M{"op": "union", "a": op["a"], "b": op["b"]}).(M); ok {
+				uv := View(un)
+				for id, rn := range r.Nodes {
+					if us, ok := uv.Nodes[id]; ok && len(us) == 1 && len(rn) == 1 && !Equal(CanonNode(us[0]), CanonNode(rn[0])) {
+						add("C10", "intersect: node %q is %s, the union of the same operands holds %s", id, js(rn[0]), js(us[0]))
+					}
+				}
+			}
+		}
 		rev := exec(M{"op": "intersect", "a": op["b"], "b": op["a"]})
 		if isNL(rev) && !SetEquivalent(r, View(rev)) {
 			add("C10", "intersect is not commutative on node/root/edge sets")
